@@ -2,7 +2,7 @@
    clauses of its guard. *)
 From Coq Require Import ZArith QArith List Bool Lia.
 From RV Require Import Base.Wire Base.Text Lang.StmtAst Lang.Transl Lang.StmtSem Lang.StmtGuard
-  Lang.SemFacts Lang.StmtDemo.
+  Lang.SemFacts Lang.StmtSimple Lang.StmtDemo.
 Import ListNotations.
 Open Scope Z_scope.
 
@@ -145,3 +145,6 @@ Proof.
   split; [vm_compute; reflexivity|]. split; [exact demo_tuple_facts|]. split; [vm_compute; reflexivity|].
   eexists. split; [vm_compute; reflexivity|]. vm_compute. reflexivity.
 Qed.
+
+Lemma demo_breaks_ok : guard_ok demo = true /\ StmtSimple.breaks_ok demo = true /\ sem_facts demo_sem demo_aug demo.
+Proof. split; [vm_compute; reflexivity|]. split; [vm_compute; reflexivity|exact demo_facts]. Qed.
